@@ -526,6 +526,7 @@ type Contract struct {
 	ParamNames []string // functype-derived contracts: the type's parameter names, bound by position
 	CopyFamily bool // a DeepCopy method: contract synthesised from the type declaration (C18)
 	Fresh    bool   // writes only memory allocated in its own activation (checked: frame obligations)
+	Keeps    []string // struct-name prefixes (e.g. "compiler.") whose fields the function does not write (assumed contracts)
 	Modifies []string
 	ModifiesSet bool
 	Props    []string
@@ -578,7 +579,7 @@ func (cs *ContractSet) LoadContractText(text, path, pkgName string) error {
 		}
 		switch first {
 		case "spec", "axiom", "lemma", "func", "functype", "fieldfn", "assume-contract", "requires", "ensures", "invariant", "ghost", "decreases",
-			"modifies", "nopanic", "pure", "inline", "loop", "inlined-loop", "property", "fresh", "copyof", "callbacks-modify-nothing", "witness":
+			"modifies", "keeps", "nopanic", "pure", "inline", "loop", "inlined-loop", "property", "fresh", "copyof", "callbacks-modify-nothing", "witness":
 			items = append(items, t)
 			lineNo = append(lineNo, i+1)
 		default:
@@ -806,6 +807,8 @@ func (cs *ContractSet) LoadContractText(text, path, pkgName string) error {
 				cur.Pure = true
 			case "inline":
 				cur.Inline = true
+			case "keeps":
+				cur.Keeps = append(cur.Keeps, strings.Fields(rest)...)
 			case "fresh":
 				cur.Fresh = true
 			case "callbacks-modify-nothing":
